@@ -40,7 +40,8 @@ def corpus():
 
 def generate(rng, tier, override=0):
     n = override or 300
-    out = []
+    # a companion's corpus() is not called by check.py: the minimised past failures go first here
+    out = corpus()
     for i in range(n):
         kind = "sm" if i % 4 == 3 else ("compress" if i % 8 == 5 else "mixed")
         out.append(conn_gen.gen_session(rng, tier, kind))
